@@ -14,7 +14,13 @@ META = {
             "_end_to_end / C05_phase_ok (every completion order of MPI_Waitany: each gathered value reaches exactly its matching target entry once, "
             "nothing else; add = sum over senders, copy = the sender's value; forward and backward; SizeOne and variable-size blocks), "
             "C05_terminates + C05_all_matched (no receive or send stays unmatched; outstanding requests strictly decrease), C05_rebuild_refuted "
-            "(build() over a previous build, F-C05-1) and C05_build_after_free (the repaired build). "
+            "(build() over a previous build, F-C05-1) and C05_build_after_free (the repaired build); "
+            "C05_decomposition_delivery (all of the above FROM ANY DECOMPOSITION: keys, ranks, pairing and layouts are proved for the interfaces "
+            "of the decomposition, not assumed), C05_oracle_interface/_forward/_backward (the extracted spec used as oracle is exactly what the "
+            "model builds and delivers), C05_repeated_use (any sequence of communications), C05_communicator_history / C05_interface_history "
+            "(build/free/strip/communicate histories), C05_buffer_layout (offset intervals disjoint, ascending, exact size), "
+            "C05_datatype_delivery/_equals_buffered_copy/_requests (DatatypeCommunicator incl. the literal request lists), "
+            "C05_source_matches_model / C05_tags_disjoint (28 code shapes and 6 constants re-read from the source on every run). "
             "The model is tied to the tree on every run by an MPI harness (1..4 ranks quick, 1..6 thorough) over generated overlapping "
             "decompositions, all 144 pairs of 12 flag-set types, one and two index sets, SizeOne and variable-size payloads, copying and "
             "accumulating recording gather/scatter policies, forward/backward/forward on one communicator, seeded Waitany orders.",
@@ -453,7 +459,12 @@ def build(ctx):
     return model, impl
 
 
+def params_hook(ctx):
+    V.sh([sys.executable, os.path.join(V.VERIF, "tools", "extract_params.py"), ctx.repo], check=True)
+
+
 def run(ctx):
+    ctx.params_hook = params_hook
     V.coq_stage(ctx)
     model, impl = build(ctx)
     quick = ctx.quick
@@ -575,7 +586,7 @@ def run(ctx):
         if any(r[0] not in SIDE for r in rs):
             continue
         ia, im = parse_obs(a), parse_obs(mm)
-        if any(x[ph]["S"] != y[ph]["S"] for x, y in zip(ia, im) for ph in ("P0", "P1", "P2")):
+        if ia and im and any(x.get(ph, {}).get("S") != y.get(ph, {}).get("S") for x, y in zip(ia, im) for ph in ("P0", "P1", "P2")):
             nperm += 1                       # same scatter calls, but not in ascending process order: Waitany was perturbed
         dm = diff_model(a, mm, spec, c)
         if dm and dm[0] == "public":
